@@ -16,13 +16,13 @@ ID = 'C17'
 def plan(tier):
     if tier == 'quick':
         return [(1, ('plain',), 'RBW', 2, False), (2, ('plain', 'rainbow'), 'RBW', 2, True), (3, ('plain',), 'RBW', 2, False),
-                (4, ('plain',), 'RW', 2, False)]
+                (4, ('plain',), 'RW', 2, False), (3, ('parsed',), 'RW', 1, False), (3, ('long',), 'RW', 2, False)]
     return [(1, ('plain',), 'RBWX', 3, False), (2, ('plain', 'rainbow'), 'RBWX', 2, True), (3, ('plain', 'rainbow'), 'RBW', 2, True),
-            (3, ('plain',), 'RB', 3, False), (4, ('plain', 'rainbow'), 'RBW', 2, False), (5, ('plain',), 'RW', 2, False)]
+            (3, ('plain',), 'RB', 3, False), (4, ('plain', 'rainbow'), 'RBW', 2, False), (5, ('plain',), 'RW', 2, False), (3, ('long',), 'RBW', 2, False)]
 
 
 def tasks(tier, seed):
-    return explore.std_tasks(plan(tier))
+    return explore.std_tasks(explore.plan_override(ID, plan(tier)))
 
 
 def menu(seed):
@@ -82,7 +82,7 @@ def check_state(h, v, acc):
     L = len(text)
     T = [set(c) for c in cells]
     vs = AnsiStr(v)
-    for k in range(-L - 2, L + 3):
+    for k in [x for x in explore.probe_bounds(L, 2, 2) if x is not None]:
         acc.transitions += 2
         try:
             a = [str(x) for x in v.ansi_settings_at(k)]
@@ -97,7 +97,7 @@ def check_state(h, v, acc):
                 acc.validated += 2
         except Exception as e:  # noqa
             bad.append(('at-raises', {'hist': h, 'op': ['at', k]}, 'index %d raised %s: %s' % (k, type(e).__name__, e)))
-    bounds = list(range(-L - 1, L + 2)) + [None]
+    bounds = explore.probe_bounds(L, 1, 1)
     for S in menu(acc.seed):
         arg = mk_settings(S)
         for rev in (False, True):
